@@ -112,6 +112,9 @@ HISTORIES = [
     A3 + [["add_assoc", 0], ["add_assoc", 2], ["remove_assoc", 0], ["add_assoc", 1]] + ATT + [["remove_ep", 0, 2, 0]],
     [["add_asset", 1, 2, True], ["add_asset", 0, 1, True], ["add_asset", 2, 0, True], ["add_assoc", 1], ["add_assoc", 3]] + ATT,
     [["add_attacker", 0, None], ["add_asset", 0, None, True], ["add_attacker", 1, None], ["add_asset", 2, None, True], ["add_assoc", 0]],
+    # an explicit attacker id at / above the id counter, then an automatically numbered attacker: the two must get different ids
+    A3 + [["add_ep", 0, 0, 0], ["add_attacker", 0, 3], ["add_ep", 1, 2, 0], ["add_attacker", 1, None]],
+    A3 + [["add_ep", 0, 0, 0], ["add_attacker", 0, 9], ["add_ep", 1, 1, 0], ["add_attacker", 1, None], ["add_asset", 1, None, True]][:-1],
 ]
 NAMES = [("a", "b", "c"), ("a", "a", "a:1"), ("yes", "1", "a: b"), ("null", "~", "no"), ("ö✓", "日本", "\U0001F600"),
          ("'q'", '"dq"', "back\\slash"), ("x\ny", "  lead", "#c"), ("", "-", "{a: 1}"), ("1e3", "0x1F", "1.5")]
@@ -625,7 +628,41 @@ def run_seq(recipe, r, tmp):
     return views
 
 
+def _explicit_id_in_use(recipe):
+    """does the recipe itself ask for an attacker id that a live attacker already has (per the intended id discipline: automatic
+    ids come from a counter that is above every id handed out so far)?  Tells the known finding (an explicit duplicate id is
+    accepted) from ids that collide although nobody asked for a duplicate."""
+    ops = list(recipe.get("ops") or [])
+    for st in recipe.get("stages") or []:
+        ops += list(st.get("ops") or [])
+    next_id, asset_ids, live = 0, set(), {}
+    for op in ops:
+        if op[0] == "add_asset":
+            nid = op[2] if op[2] is not None else next_id
+            if nid in asset_ids:
+                continue
+            asset_ids.add(nid); next_id = max(nid + 1, next_id)
+        elif op[0] == "add_attacker":
+            aid = op[2] if op[2] is not None else next_id
+            if op[1] in live:
+                return "same-attachment-added-twice"
+            if op[2] is not None and aid in live.values():
+                return "explicit-id-already-in-use"
+            live[op[1]] = aid; next_id = max(aid + 1, next_id)
+        elif op[0] == "remove_attacker":
+            live.pop(op[1], None)
+    return None
+
+
 def run_case(recipe):
+    r = _run_case(recipe)
+    if any(f[3] == "two-attackers-one-id" for f in r.failures):
+        tag = _explicit_id_in_use(recipe) or "ids-handed-out-by-the-model-collide"
+        r.failures = [(c_, fn, msg, (sig + ":" + tag) if sig == "two-attackers-one-id" else sig) for (c_, fn, msg, sig) in r.failures]
+    return r
+
+
+def _run_case(recipe):
     r = CaseResult()
     tmp = tempfile.mkdtemp(prefix="c07_")
     try:
